@@ -6,6 +6,51 @@ from vf.pipeline import Group, Replay
 
 ID = 'C20'
 LEVEL = 'proof'
+EXPLANATION = ('log2i, every Vector2/3/4 member, Matrix4 M*v and reduce_fraction are loop-free: each contract is enforced with '
+               'goto-instrument --dfcc and decided over the whole input domain of the instantiation. gcd (Euclid loop), the Matrix4 '
+               'identity constructor / transposition (4x4 loops) and the random_data refill loop are proved with loop contracts '
+               '(invariant + variant), i.e. for any number of iterations. Universally quantified facts (every divisor d, every element '
+               '(x,y), every byte offset k) are proved for one arbitrary ghost value fixed before the call. Independent conjuncts of the gcd / '
+               'reduce_fraction contracts are discharged in separate runs (-DGCD_PART / -DRF_PART). Strict-weak-order laws, '
+               'transpose-twice and gcd symmetry are lemmas proved over the contracts (callee replaced by its contract); '
+               'cross-product orthogonality is an ensures clause of cross (polynomial identity in Z/2^n, decided by cvc5).')
+TRUSTED = [
+    'contracts/C20_math.h, C20_vec.h, C20_vec_ops.h, C20_mat.h, C20_random.h: the specification macros (divisibility, componentwise '
+    'definitions, lexicographic order, m[column][row] convention of Matrix4)',
+    'contracts/C20_random.h: stubs -- std::string model of the static refill buffer (capacity 4096), readx(fd,4096) = 4096 arbitrary '
+    'bytes or io_error, memcpy with abstracted content (source readable; one arbitrary byte stored at an arbitrary offset of the '
+    'destination range, so that every destination byte passes the pointer and assigns-clause checks), string(bytes, 0) = allocation or bad_alloc',
+    "cbmc's built-in model of __builtin_clz / __builtin_clzll",
+]
+ASSUMPTIONS = [
+    'gcd / reduce_fraction: operands non-negative (the property\'s domain); reduce_fraction: not both operands zero (0/0 divides by zero)',
+    'vector operators at T = int64_t: the preconditions exclude exactly the inputs on which the native C++ operator is undefined '
+    '(signed overflow, division by zero, INT64_MIN / -1); cross orthogonality and Matrix4 * Vector4 are stated at unsigned element '
+    'types (uint64_t, uint32_t) where no input has to be excluded (wrap-around arithmetic)',
+    'the two operands of a binary vector operator are distinct objects (is_fresh): a += a style aliasing is not covered',
+    'at(dim): dim < N. The real code has no bounds check; for dim >= N it reads outside the object (undefined behaviour)',
+    'random_int: lo <= hi and hi - lo < 2^63; random_data: the static buffer holds at most 4096 bytes on entry (its type invariant, re-established by every call)',
+]
+DROPS = ('constexpr dropped; templates instantiated textually (IntT / T as macros); constructors: the member-initialiser lists are turned '
+         'into assignments to a result struct (bodies must be empty, checked); member functions get an explicit self, references become '
+         'pointers, Vector<T>(..) temporaries become Vector_make(..); std::pair -> struct {first, second}; the function-local statics of '
+         'random_data are hoisted (fd: part of the readx stub; buffer: file-scope model); std::string members -> model calls; '
+         'not taken (not part of the property or not decidable here): norm() (sqrt), str(), Matrix4 element-wise operators, ==, !=, '
+         'operator*(Matrix4), operator*=, inverse(), invert()')
+NOT_DECIDED = [
+    'gcd<IntT>: "divides both arguments / divisible by every common divisor" is proved for the 8-bit instantiations only (int8_t, uint8_t; '
+    'loop contract, all values). The inductive step d|a and d|b <=> d|b and d|(a mod b) is non-linear: no back end decides it at 16 bits within '
+    '300 s (12 bits already > 120 s, measured), so for 16/32/64-bit IntT only termination, absence of UB, gcd(a,0) = a, result = 0 iff a = b = 0 '
+    'and result <= max(a,b) are proved (groups *.partial); reduce_fraction is proved for the 8-bit instantiations only',
+    '(AB)v = A(Bv): Matrix4::operator*(Matrix4) accumulates in a double for every T; its contract needs '
+    '(double)acc + (double)t == (double)(acc + t), which no back end decided within 300 s (cvc5 additionally hits an SMT2 generation error) -- '
+    'the matrix product, and with it associativity with M*v, is not decided. M*v itself is proved (componentwise definition, uint64_t)',
+    'M * inverse(M) = I for diagonally dominant M: floating-point Gauss-Jordan elimination (rounding error bound), outside what the bit-precise back ends decide',
+    'norm() (sqrt of a double) and the floating-point instantiations Vector<float/double>, Matrix4<float/double>: not decided; '
+    'the integer instantiations int64_t / uint64_t / uint32_t are',
+    'random_data: that the stored bytes are the bytes delivered by the source (byte values are abstracted); proved instead: every requested '
+    'byte is stored exactly once, nothing else is written, and stored + remaining = initial + refilled (no source byte handed out twice or dropped)',
+]
 
 MATH = 'src/Math.hh'
 
@@ -45,21 +90,26 @@ def math_groups(ctx):
                         enforce='log2i_' + name, defines=d,
                         clause_note='contracts/C20_math.h: 0 <= r < W and (v >> r) == 1, i.e. r = floor(log2 v), for every v > 0',
                         replay=Replay(driver='C20/math.cc', mode='log2i', extra=[name])))
-        g = Group(name='Math.gcd<%s>%s' % (name, '' if full else '.partial'), harness=H, entry='h_gcd',
-                  function='gcd<%s>' % name, enforce='gcd_' + name, loops=True, defines=d, kind='loop-contract',
-                  clause_note=('contracts/C20_math.h: d | a and d | b <=> d | gcd(a,b) for the ghost divisor d; gcd | a, gcd | b; gcd(a,0) = a'
-                               if full else 'contracts/C20_math.h: termination, no UB, gcd(a,0) = a, result 0 iff both arguments 0, '
-                               'result <= max(a,b) -- divisibility clauses not attempted at this width'),
-                  replay=Replay(driver='C20/math.cc', mode='gcd', extra=[name]))
-        if full:
-            g.first, g.timeout = 'cadical', 300
-        gs.append(g)
-        if full:
-            gs.append(Group(name='Math.reduce_fraction<%s>' % name, harness=H, entry='h_reduce_fraction',
-                            function='reduce_fraction<%s>' % name, enforce='reduce_fraction_' + name, replace=['gcd_' + name],
-                            defines=d, kind='loop-free',
-                            clause_note='contracts/C20_math.h: p*g == a, q*g == b, p*b == q*a; a common divisor of p and q is 1',
-                            replay=Replay(driver='C20/math.cc', mode='reduce_fraction', extra=[name])))
+        if not full:
+            gs.append(Group(name='Math.gcd<%s>.partial' % name, harness=H, entry='h_gcd', function='gcd<%s>' % name,
+                            enforce='gcd_' + name, loops=True, defines=d, kind='loop-contract',
+                            clause_note='contracts/C20_math.h: termination, no UB, gcd(a,0) = a, result 0 iff both arguments 0, '
+                                        'result <= max(a,b) -- divisibility clauses not decided at this width',
+                            replay=Replay(driver='C20/math.cc', mode='gcd', extra=[name])))
+        else:
+            # the contract's clauses about the two ghost divisors are independent conjuncts: one run each (contracts/C20_math.h)
+            for part in (1, 2):
+                gs.append(Group(name='Math.gcd<%s>.divisor-%s' % (name, 'd' if part == 1 else 'd2'), harness=H, entry='h_gcd',
+                                function='gcd<%s>' % name, enforce='gcd_' + name, loops=True, defines=d + ['GCD_PART=%d' % part],
+                                kind='loop-contract', first='cadical', timeout=400,
+                                clause_note='contracts/C20_math.h: d | a and d | b <=> d | gcd(a,b) for the ghost divisor; gcd | a, gcd | b; gcd(a,0) = a',
+                                replay=Replay(driver='C20/math.cc', mode='gcd', extra=[name])))
+            for part, what in ((1, 'same-ratio'), (2, 'coprime')):
+                gs.append(Group(name='Math.reduce_fraction<%s>.%s' % (name, what), harness=H, entry='h_reduce_fraction',
+                                function='reduce_fraction<%s>' % name, enforce='reduce_fraction_' + name, replace=['gcd_' + name],
+                                defines=d + ['RF_PART=%d' % part], kind='loop-free', first='cadical', timeout=400,
+                                clause_note='contracts/C20_math.h: p*g == a, q*g == b, p*b == q*a; a common divisor of p and q is 1',
+                                replay=Replay(driver='C20/math.cc', mode='reduce_fraction', extra=[name])))
             gs.append(Group(name='Math.gcd<%s>.commutes' % name, harness=H, entry='l_gcd_commutes', function='gcd<%s>' % name,
                             replace=['gcd_' + name], defines=d, kind='lemma',
                             replay=Replay(driver='C20/math.cc', mode='gcd_commutes', extra=[name])))
@@ -259,7 +309,7 @@ def vec_groups(ctx, table):
                   clause_note='contracts/C20_vec_ops.h: the result is the componentwise definition (native operator on T per component)',
                   replay=Replay(driver='C20/vec.cc', mode=cname, extra=[T]))
         if nm in HEAVY:
-            g.first, g.stage1 = 'cvc5', 20
+            g.first, g.stage1, g.timeout = 'cvc5', 20, 300
         gs.append(g)
     for cls in ('Vector2', 'Vector3', 'Vector4'):
         gs.append(Group(name='Vector.%s<%s>.strict-weak-order' % (cls, T), harness=H, entry='l_%s_order' % cls,
@@ -334,7 +384,7 @@ def random_units(ctx, src):
                       Rule('buffer.resize(', 'vstr_resize(&buffer, ', count=1),
                       Rule('memcpy(', 'G_MEMCPY(', count=2)],
                loops={1: 'RD_LOOP'}, nloops=1,
-               body_prefix=' g_data0 = data; g_bytes0 = bytes; g_filled = 0; g_k_hits = 0; ')
+               body_prefix=' g_data0 = data; g_bytes0 = bytes; g_size0 = buffer.size; g_filled = 0; g_k_hits = 0; g_refills = 0; ')
     u.function(src, RCC, r'string random_data\(size_t bytes\)', new_header='void random_data_str(pstr* ret, size_t bytes)',
                rules=[Rule("string ret(bytes, '\\0');", "pstr_init_fill(ret, bytes, '\\0'); if (verif_exc) return;", count=1),
                       Rule('random_data(ret.data(), ret.size());', 'random_data(ret->data, ret->size); if (verif_exc) return;', count=1),
@@ -347,10 +397,10 @@ def random_units(ctx, src):
 
 def random_groups(ctx):
     H = 'harness/C20/random.c'
-    rp = lambda m: Replay(driver='C20/random.cc', mode=m, sources=['src/Random.cc', 'src/Filesystem.cc', 'src/Strings.cc'])
+    rp = lambda m: Replay(driver='C20/random.cc', mode=m, sources=['src/Random.cc', 'src/Filesystem.cc', 'src/Strings.cc', 'src/Process.cc', 'src/Time.cc'])
     return [
         Group(name='Random.random_data', harness=H, entry='h_random_data', function='random_data(void*, size_t)',
-              enforce='random_data', loops=True, kind='loop-contract', min_post=3,
+              enforce='random_data', loops=True, kind='loop-contract', min_post=3, timeout=400, stage1=200,
               clause_note='contracts/C20_random.h: every offset < bytes is stored exactly once, nothing else is written (assigns)',
               replay=rp('random_data')),
         Group(name='Random.random_data(size_t)', harness=H, entry='h_random_data_str', function='random_data(size_t)',
@@ -358,7 +408,7 @@ def random_groups(ctx):
               clause_note='contracts/C20_random.h: the returned string has exactly `bytes` bytes, all stored',
               replay=rp('random_data_str')),
         Group(name='Random.random_int', harness=H, entry='h_random_int', function='random_int', enforce='random_int',
-              replace=['random_data'], kind='loop-free', first='cvc5', stage1=20,
+              replace=['random_data'], kind='loop-free', timeout=400, stage1=100,
               clause_note='contracts/C20_random.h: lo <= random_int(lo,hi) <= hi for hi - lo < 2^63, random source nondet',
               replay=rp('random_int')),
     ]
@@ -380,3 +430,20 @@ def plan(ctx):
 
 
 CLAIMED = True
+MANIFEST = dict(
+    category='proof',
+    text=('log2i (8 integer types: r < W and v >> r == 1 for every v > 0), every operator/constructor/at/dot/norm1/norm2/cross/dimensions of '
+          'Vector2/3/4<int64_t> (componentwise definition, full input domain minus C++-undefined inputs), cross-product orthogonality in Z/2^64 and Z/2^32, '
+          'operator< strict weak order consistent with == (lemmas over the contracts), Matrix4 identity constructor, transposition()[y][x] == m[x][y], '
+          'transpose, transpose twice = identity, M*v componentwise, random_int(lo,hi) in [lo,hi] for hi-lo < 2^63 with a nondet random source, '
+          'random_data storing every requested byte exactly once and nothing else: function contracts enforced with goto-instrument --dfcc on text '
+          'extracted from /repo/src on every run; loops (Euclid, 4x4 matrix loops, refill loop) by loop contracts for any iteration count. '
+          'gcd divisibility and reduce_fraction (same ratio, coprime) are proved for the 8-bit instantiations over all values.'),
+    note=('Not decided: gcd divisibility / reduce_fraction for 16/32/64-bit types (non-linear induction step; only termination, UB-freedom, gcd(a,0)=a, '
+          'zero-iff-both-zero, <= max proved there); the matrix product (double accumulator), hence (AB)v = A(Bv); M*inverse(M) = I; norm(); float/double '
+          'instantiations. Trusted: cbmc/goto-instrument, the answering SAT/SMT solver, the extractor, the spec macros in contracts/C20_*.h, the stubs for '
+          'the random source / std::string / memcpy (content abstracted) in contracts/C20_random.h, cbmc\'s __builtin_clz(ll) model. Preconditions exclude '
+          'inputs on which the native C++ operator is undefined; operands of binary vector operators are distinct objects; at(dim) only for dim < N.'),
+    technique=('function contracts (requires/ensures/assigns) and loop contracts (invariant/decreases/assigns) enforced with goto-instrument --dfcc, '
+               'discharged by cbmc (SAT/SMT portfolio); ghost-value universals; lemmas over contracts'),
+)
